@@ -65,10 +65,10 @@ def run(tier, seed, replay=None):
     rng = chk.rng
     for it in range(600 if tier == "quick" else 12000):
         e = G.random_expr(rng, rng.randint(2, 9), atoms=[1, 2, 3, 4, 5, 6])
-        symmap = G.MIXED if it % 2 == 0 else G.COLLIDING
+        symmap = (G.MIXED, G.COLLIDING, G.DISTINCT_OBJECTS)[it % 3]
         for _ in range(6):
             w = tuple(rng.choice([1, 2, 3, 4, 5, 6]) for _ in range(rng.randint(0, 6)))
-            obs, _ = G.impl_obs(e, w, symmap)
+            obs, _ = G.impl_obs(e, w, symmap, fresh=symmap is G.DISTINCT_OBJECTS)
             sm, sp = G.spec_match(e, w), G.spec_shortest_prefix(e, w)
             chk.evaluations += 1
             chk.count("mixed-type symbols")
